@@ -104,7 +104,7 @@ var invalidKinds = []string{
 	"neg-up", "neg-down", "neg-latency", "empty-regex", "bad-regex", "neg-maxbw",
 	"thr-zero-bw", "thr-neg-bw", "thr-overlap", "thr-open-not-last", "thr-equal", "thr-reversed", "thr-malformed",
 	"halt-neg-dur", "halt-neg-byte", "halt-zero-count", "close-neg-byte", "close-zero-count", "halt-neg-count", "close-neg-count",
-	"bad-json", "no-trafficshape", "null-shape", "null-throttle", "null-halt", "null-close", "string-for-number",
+	"bad-json", "no-trafficshape", "null-document", "null-trafficshape", "array-document", "empty-body", "null-shape", "null-throttle", "null-halt", "null-close", "string-for-number",
 }
 
 // invalidate plants one defect into a valid configuration; whether the result
@@ -911,6 +911,19 @@ func fixedCases() []Case {
 		{Op: "resp", Conn: 1, R: &Resp{Pat: 1, Body: 500, Seed: 78, OClose: true, ReqClose: true}},
 		{Op: "resp", Conn: 2, R: &Resp{Pat: 1, Body: 0, Seed: 79, OClose: true}},
 	}})
+	// documents that are JSON but no configuration are answered 400 and change nothing
+	keep := Config{Latency: 3, Shapes: []Shape{{Pat: 1, Var: 1, Closes: []CloseAct{{At: 100, N: -1}}}}}
+	nd := Case{Level: "conn", Steps: []Step{{Op: "post", Cfg: &keep}}}
+	for _, m := range []string{"null-document", "null-trafficshape", "array-document", "empty-body"} {
+		bad := keep
+		bad.Mangle = m
+		nd.Steps = append(nd.Steps, Step{Op: "post", Cfg: &bad})
+	}
+	nd.Steps = append(nd.Steps, Step{Op: "open", Conn: 0}, Step{Op: "resp", Conn: 0, R: &Resp{Pat: 1, Body: 500, Head: 40, Seed: 84}})
+	out = append(out, nd)
+	// a chunked matching response is cut after exactly the body bytes in front of the close offset
+	out = append(out, one("e2e", Shape{Pat: 1, Var: 1, Closes: []CloseAct{{At: 100, N: -1}}},
+		Resp{Pat: 1, Body: 1000, Seed: 85, Chunked: true, Chunk: 1000}))
 	// a CONNECT on a connection that has just served a matching response with actions still ahead:
 	// the tunnel's bytes match no shape; and the control: a tunnel on a fresh connection
 	tun := Config{Shapes: []Shape{{Pat: 1, Var: 1, Closes: []CloseAct{{At: 5000, N: -1}}, Halts: []Halt{{At: 3000, Dur: 30, N: -1}}}}}
@@ -968,6 +981,14 @@ func fixedCases() []Case {
 	sc.Steps = append(sc.Steps, Step{Op: "par", Par: lanes})
 	out = append(out, sc)
 	if kit.Thorough() {
+		// a client that stops reading a 24 MiB response must not hold up responses on other
+		// connections, of another shape and of the same shape
+		sp := Config{Shapes: []Shape{{Pat: 1, Var: 1}, {Pat: 2, Var: 1}}}
+		out = append(out, Case{Level: "conn", Steps: []Step{
+			{Op: "post", Cfg: &sp}, {Op: "open", Conn: 0}, {Op: "open", Conn: 1},
+			{Op: "stalled-peer", Conn: 0, R: &Resp{Pat: 1, Body: 24 << 20, Head: 50, Seed: 90},
+				Par: []Lane{{Conn: 1, Rs: []Resp{{Pat: -1, Body: 500, Head: 50, Seed: 91}, {Pat: 2, Body: 500, Head: 50, Seed: 92}, {Pat: 1, Body: 500, Head: 50, Seed: 93}}}}},
+		}})
 		out = append(out,
 			one("conn", thr, Resp{Pat: 3, Body: 8000, Head: 100, Seed: 9, Splits: []int{3000, 777}}),
 			one("conn", thr3, Resp{Pat: 3, Body: 8000, Head: 100, Seed: 9, Splits: []int{3000, 777}}),
